@@ -118,11 +118,17 @@ func unNestRecur(s string) ([][]int, error) {
 		if !isNested(f) {
 			switch f[0:4] {
 			case "join":
-				pos, _ := posFromJoin(f)
+				pos, err := posFromJoin(f)
+				if err != nil {
+					return make([][]int, 0), locationErr
+				}
 				this_result = append(this_result, pos)
 				continue
 			case "comp":
-				pos, _ := posFromComp(f)
+				pos, err := posFromComp(f)
+				if err != nil {
+					return make([][]int, 0), locationErr
+				}
 				this_result = append(this_result, pos)
 				continue
 			}
